@@ -233,3 +233,94 @@ def engine_B(name, kinds, seed, nhist, nkeys, nops, ranks=None, hashers=("std",)
                                    "universe": nkeys, "seed": seed})
         replay_and_validate(cases, wd, "B/" + kind, f)
     return f
+
+
+# ------------------------------------------------------------------------------------------------
+# Engine C: iterator protocol.  MCIter enumerates every call sequence (and checks the cursor
+# machines against the contract); the sequences are replayed on the real iterators; IterProto
+# (through TraceQueue) validates the recorded results.
+# ------------------------------------------------------------------------------------------------
+# which cursor machine of MCIter mirrors which real iterator (kept in step with the code: see DESIGN 6.C09)
+# ("single" was the machine of DoublePriorityQueue::IterMut in 2.3.1; since the fix 0799aae it is "pair")
+MACHINE = {("pq", "iter_mut"): "fwd", ("pq", "iter_mut_ref"): "fwd", ("pq", "sorted"): "fwd"}
+BORROWING = ("iter", "iter_ref", "drain", "iter_mut", "iter_mut_ref")
+CONSUMING = ("into_iter", "sorted")
+ADAPTORS_DX = ["rev", "take", "skip", "enumerate", "zip", "peekable", "fuse", "step_by", "chain", "rev_take",
+               "take_rev", "skip_rev"]
+ADAPTORS_FWD = ["take", "skip", "enumerate", "zip", "peekable", "fuse", "step_by", "chain"]
+
+
+def machine_of(kind, it):
+    return MACHINE.get((kind, it), "pair")
+
+
+def is_fwd(kind, it):
+    return machine_of(kind, it) == "fwd"
+
+
+def engine_C(name, kinds, iters, sizes, depth, adaptors=True, forget=True, wd_name=None, hashers=("std",)):
+    f = Findings()
+    wd = vlib.workdir((wd_name or name) + "_C")
+    seqs = {}
+    predictions = []
+    for impl in sorted({machine_of(k, it) for k in kinds for it in iters}):
+        for n in sizes:
+            consts = {"N": str(n), "Depth": str(depth), "Impl": vlib.tla_str(impl), "Emit": "TRUE"}
+            mc = vlib.run_mc("MCIter", consts, ["NoDup", "NoPanic", "Fused", "LenExact", "InRange", "EmitInv"], wd,
+                             view=None, workers=4, extra_cfg="", timeout=900, cont=True)
+            calls = []
+            for line in open(mc["out"]):
+                if line.startswith('<<"CALLS", "'):
+                    calls.append(json.loads(vlib.unescape_tla(line.strip()[len('<<"CALLS", "'):-3]))["calls"])
+            seqs[(impl, n)] = calls
+            f.stats["states"] += mc["distinct"]
+            f.stats["transitions"] += mc["generated"]
+            viol = sorted(set(mc["violated"]))
+            if viol:
+                predictions.append((impl, n, viol))
+            f.stats["engines"].append({"engine": "C", "machine": impl, "n": n, "depth": depth,
+                                       "call_sequences": len(calls), "states": mc["distinct"],
+                                       "contract_violated_by_machine": viol})
+    for impl, n, viol in predictions:
+        log("[C] MODEL-PREDICTION: cursor machine '%s' (n=%d) violates %s in the model; the verdict comes from the "
+            "replay on the real iterators below" % (impl, n, viol))
+    cases = []
+    nprobe = 0
+    for kind in kinds:
+        for n in sizes:
+            for pat, ranks in enumerate(([i % 2 for i in range(n)], [n - i for i in range(n)])):
+                steps = [{"op": "push", "k": KEYS[i], "r": ranks[i]} for i in range(n)]
+                probes = []
+                for it in iters:
+                    if pat == 1 and it not in ("sorted", "iter_mut"):
+                        continue
+                    impl = machine_of(kind, it)
+                    opn = "into_calls" if it in CONSUMING else "iter_calls"
+                    for cs in seqs[(impl, n)]:
+                        probes.append([{"op": opn, "it": it, "calls": cs + [0] * (n + 2)}])
+                    if forget and it in ("drain", "iter_mut"):
+                        for cs in ([], [0], [0, 0], [0] * n):
+                            bk = "pop" if kind == "pq" else "pop_min"
+                            probes.append([{"op": "iter_calls", "it": it, "calls": cs, "forget": True},
+                                           {"op": "push", "k": "z", "r": 1}, {"op": bk}, {"op": "contents"},
+                                           {"op": "retain", "keep": ["z", "a"]}, {"op": bk}])
+                    if adaptors and pat == 0:
+                        ads = ADAPTORS_FWD if is_fwd(kind, it) else ADAPTORS_DX
+                        for ad in ads:
+                            for k in sorted({0, 1, n, n + 1}):
+                                if ad in ("enumerate", "zip", "peekable", "fuse", "chain", "rev") and k != 0:
+                                    continue
+                                for cs in ([2], [3], [0, 2, 3], [1, 2, 3, 0], [2, 0, 0, 2]):
+                                    if is_fwd(kind, it) and (1 in cs or 2 in cs):
+                                        cs = [c for c in cs if c in (0, 3)] or [3]
+                                    probes.append([{"op": opn, "it": it, "adapt": ad, "k": k, "calls": cs + [0] * (n + 2)}])
+                nprobe += len(probes)
+                for h in hashers:
+                    # split very long probe lists so that shards stay balanced
+                    for j in range(0, max(1, len(probes)), 400):
+                        cases.append({"case": [kind, h, n, pat, j], "kind": kind, "hasher": h, "universe": keyset(n) + ["z"],
+                                      "steps": steps, "probes": probes[j:j + 400], "wit": []})
+    f.samples.append({"engine": "C", "example_probe": cases[-1]["probes"][0] if cases and cases[-1]["probes"] else None,
+                      "call_codes": "0 next, 1 next_back, 2 len, 3 size_hint"})
+    replay_and_validate(cases, wd, "C", f)
+    return f
